@@ -10,7 +10,8 @@ CONSTANTS Depth, MinItems, Thin
 (* <<-1, n, id>>: a payload of n bytes (pattern id) - sizes at and around internal block sizes *)
 GenByteToks  == {<<>>, <<65>>, <<0, 255, 10>>, <<104, 101, 108, 108, 111>>,
                  <<-1, 8192, 1>>, <<-1, 1025, 2>>, <<-1, 4095, 3>>}
-GenChunkSets == {<<1, 0>>, <<2, 3, -1>>, <<1, 4, 7, 0>>, <<5, -2>>, <<-3, -4>>, <<-5, 1, -6>>}
+GenChunkSets == {<<1, 0>>, <<2, 3, -1>>, <<1, 4, 7, 0>>, <<5, -2>>, <<-3, -4>>, <<-5, 1, -6>>,
+                 <<-7, -9, -13>>, <<-12, -25, -11>>, <<-8, -10, -36>>}
 GenLateW     == {a \in WActs : IF a.lim = 3 THEN TRUE ELSE a.lim = -1 /\ a.tok # <<>> /\ a.tok[1] = 1}
 
 Starts == {StartOf(items, i) - UOff : i \in hd..Len(items) + 1}
